@@ -33,6 +33,9 @@ func vCanonicalDepth(m *vModel, i int) uint64 {
 
 func vH_C13_step() {
 	cfg := vCfgFromParams()
+	if vChoose("cmp", 0, vParam("cmps")-1) == 1 {
+		cfg.cmp = vReverseCompare // the tree is a search tree under the collection's OWN comparator
+	}
 	pre := vBuildPre(cfg)
 	cfg = pre.cfg
 	nops := vParam("ops")
